@@ -126,8 +126,15 @@ def throttle_case(sc: dict[str, Any]) -> dict[str, Any]:
         sim.srv.policy = policy
         settings = sim.settings(queueing__error_delays=list(sc['delays']), networking__error_backoffs=[])
         op = sim.operator('op1', reg, settings)
-        sim.world.at(1, lambda: sim.create('a', {'x': 0}), 1)
+        gone_at = sc.get('a_gone_at')
+        sim.world.at(1, lambda: sim.create('a', {'x': 0}, **({'metadata': {'finalizers': ['other/x']}} if gone_at else {})), 1)
         sim.world.at(1, lambda: (state['b_arrived'].append(1), sim.create('b', {'x': 0})), 1)
+        if gone_at:      # in the middle of A's error pause A is marked for deletion and released by its (foreign) finalizer at once:
+            def gone():  # two events of A, one right behind the other -- they wait the pause out like any other event
+                sim.delete('a')
+                if sim.obj('a') is not None:
+                    sim.edit('a', lambda o: o['metadata'].update(finalizers=[]))
+            sim.world.at(gone_at, gone, 1)
         x = {'a': 0, 'b': 0}
         for t in sc['a_edits']:
             sim.world.at(t, lambda: (x.__setitem__('a', x['a'] + 1), sim.set_spec('a', x=x['a'])), 1)
@@ -138,7 +145,7 @@ def throttle_case(sc: dict[str, Any]) -> dict[str, Any]:
         # recovery: once the error word is over, one more edit of A must be processed normally
         n_before = len(runs)
         errs.clear()                      # the faults stop here
-        sim.world.at(sim.now + 700, lambda: sim.set_spec('a', x=999), 1)
+        sim.world.at(sim.now + 700, lambda: sim.set_spec('a', x=999) if sim.obj('a') is not None else sim.create('a', {'x': 999}), 1)
         sim.run(sim.now + 760)
         recovered = len(runs) > n_before and runs[-1]['ok']
         op.finish()
@@ -158,6 +165,11 @@ def throttle_scenarios(seed: int, n: int) -> list[dict[str, Any]]:
         b_edits = sorted(rnd.sample(range(2, 40), rnd.randint(1, 5)))
         out.append({'id': f'throttle-{seed}-{i}', 'mode': rnd.choice(['when', 'when', 'patch']), 'delays': delays, 'errors': errors,
                     'a_edits': a_edits, 'b_edits': b_edits, 'end': 60})
+        if i % 5 == 2:      # A disappears (marked for deletion, then released) in the middle of its error pause, and processing fails again
+            r2 = random.Random(f'throttle-gone-{seed}-{i}')
+            d0 = r2.choice([3, 4, 6])
+            out[-1].update(mode='when', delays=[d0] + [d + d0 for d in delays[1:]], errors=[True, True, True] + errors[3:],
+                           a_gone_at=1 + r2.randint(1, d0 - 1), a_edits=[])
     return out
 
 
